@@ -70,7 +70,7 @@ def partner_handler(req):
     np.random.seed(req.get("rng_seed", 5))
     np.random.random(17)
     o = pe.Obs([np.arange(req["n"], dtype=float)], [req["name"]])
-    fd, fn = tempfile.mkstemp(dir="/dev/shm", prefix="vsim_partner_")
+    fd, fn = tempfile.mkstemp(dir="/dev/shm" if os.access("/dev/shm", os.W_OK) else None, prefix="vsim_partner_")
     os.close(fd)
     try:
         if req["samples"] is None:
